@@ -231,6 +231,20 @@ let handle (p : string) : string =
   | "ldf" :: _ :: entry :: _ :: [nd; np; ns; dg] ->
     (* one shipped file: the expectation comes from prop.py's independent reading of that file *)
     Printf.sprintf "lx=ok;ndesc=%s;npids=%s;nstores=%s;dg=%s;class=loader:%s:single-file" nd np ns dg entry
+  | ["seq"; spec] ->
+    (* a load is a function of its inputs (c14_loader_stateless): the shipped directory always gives the
+       exported table, whatever the same loader object was asked before; bad texts are refused *)
+    let ids = List.map (fun ((m, _), _) -> m) store_index_sizes in
+    let shipped = digest_line all pids ids in
+    let one (t : string) =
+      match t.[0] with
+      | 'D' -> shipped
+      | 'B' -> "refused"
+      | 'F' -> (match String.split_on_char ':' t with
+          | [_; _; nd; np; ns; dg] -> Printf.sprintf "ok;ndesc=%s;npids=%s;nstores=%s;dg=%s" nd np ns dg
+          | _ -> "?")
+      | _ -> "?" in
+    "sq=" ^ String.concat "|" (List.map one (String.split_on_char ',' spec)) ^ ";class=loader-sequence"
   | ["many"; _] ->
     (* loading is a function of the files: the N-th load succeeds like the first and holds no descriptor *)
     "many=ok;class=repeated-loads"
